@@ -2,7 +2,8 @@
    (x/crosschain/keeper/attestation.go, Attest + TryAttestation), reduced to what C03 needs:
 
      Attest(oracle, claim):
-       claim.EventNonce must be lastEventNonceByOracle(oracle)+1           (else error)
+       claim.EventNonce must be GetLastEventNonceByOracle(oracle)+1        (else error; an oracle
+                                         without a record starts at max(LastObservedEventNonce-1, 0))
        att := GetAttestation(nonce, claim.ClaimHash())  or a fresh one holding THIS claim
        att.Votes += oracle ; SetAttestation
        if !att.Observed && nonce == LastObservedEventNonce+1 : TryAttestation(att, claim)
@@ -40,8 +41,15 @@ Section Attest.
 
   Definition same (n : Z) (k : bytes) (a : att) : bool := (a_nonce a =? n) && bytes_eqb (a_key a) k.
 
-  Fixpoint lastof (o : Z) (l : list (Z * Z)) : Z :=
-    match l with [] => 0 | (p, n) :: r => if p =? o then n else lastof o r end.
+  Fixpoint lastof (o : Z) (l : list (Z * Z)) : option Z :=
+    match l with [] => None | (p, n) :: r => if p =? o then Some n else lastof o r end.
+
+  (* GetLastEventNonceByOracle: an oracle that never voted starts just below the last observed nonce *)
+  Definition last_nonce (st : state) (o : Z) : Z :=
+    match lastof o (last_by st) with
+    | Some n => n
+    | None => if 1 <=? last_observed st then last_observed st - 1 else 0
+    end.
 
   (* the loop of TryAttestation: true iff some prefix of the votes reaches the required power *)
   Fixpoint tally (acc : Z) (vs : list (Z * C)) : bool :=
@@ -57,7 +65,7 @@ Section Attest.
     end.
 
   Definition vote (st : state) (o : Z) (c : C) : state * outcome :=
-    if negb (nonce c =? lastof o (last_by st) + 1) then (st, Rejected) else
+    if negb (nonce c =? last_nonce st o + 1) then (st, Rejected) else
     let a0 := match find (same (nonce c) (key c)) (atts st) with
               | Some a => a
               | None => mkAtt (nonce c) (key c) c [] false
